@@ -118,7 +118,7 @@ class Harness:
             self.ptensor = S.tensor("tparam", [self.K, 1])
             self.params = S.new(POINTS, self.ptensor, S.new(R1, "t"))
         # later rounds of a history scenario (spec.second_use) get the SAME domain object
-        self.shapes, self.dom = S.shared(("primitive", prim.name, id(prim), kind), lambda: self._make(S, prim, kind))
+        self.shapes, self.dom = S.shared(("primitive", prim.name, getattr(prim, "orientation", None), kind), lambda: self._make(S, prim, kind))
 
     @staticmethod
     def _make(S, prim, kind):
